@@ -38,7 +38,7 @@ func loneCluster(ws []uint64, keep int, rotate bool) *cluster {
 			byz = append(byz, j)
 		}
 	}
-	return newCluster(ws, byz, 1, rotate)
+	return newCluster(ws, byz, len(ws)+2, rotate) // as many outsiders (with valid keys) as a quorum of votes needs, and more
 }
 
 func memberIdx(cl *cluster, id primitives.MemberId) int {
@@ -243,6 +243,18 @@ func cmdGuards(args []string) int {
 		{"one_vote_type_new_view", func(e *guardEnv) { e.vds[0].ht = protocol.LEAN_HELIX_NEW_VIEW }},
 		{"one_vote_sig_forged", func(e *guardEnv) { e.vds[0].mode = "forged" }},
 		{"one_vote_by_outsider", func(e *guardEnv) { e.vds[0].sender = e.cl.ids[e.cl.nMembers] }},
+		{"all_votes_by_outsiders_as_many_as_members", func(e *guardEnv) { // N distinct validly signed votes, none from the committee
+			e.vds = nil
+			for i := 0; i < e.cl.nMembers; i++ {
+				e.vds = append(e.vds, voteD{ht: protocol.LEAN_HELIX_VIEW_CHANGE, inst: clusterInstance, h: h, v: e.tv, sender: e.cl.ids[e.cl.nMembers+i]})
+			}
+		}},
+		{"leader_vote_and_outsiders_as_many_as_members", func(e *guardEnv) {
+			e.vds = []voteD{{ht: protocol.LEAN_HELIX_VIEW_CHANGE, inst: clusterInstance, h: h, v: e.tv, sender: e.nv.sender}}
+			for i := 0; i < e.cl.nMembers-1; i++ {
+				e.vds = append(e.vds, voteD{ht: protocol.LEAN_HELIX_VIEW_CHANGE, inst: clusterInstance, h: h, v: e.tv, sender: e.cl.ids[e.cl.nMembers+i]})
+			}
+		}},
 		{"duplicate_voter", func(e *guardEnv) { e.vds[0].sender = e.vds[1].sender }},
 		{"header_other_height", func(e *guardEnv) { e.nv.h++ }},
 		{"header_sig_forged", func(e *guardEnv) { e.nv.mode = "forged" }},
